@@ -134,6 +134,9 @@ func funcInPkg(fn, pkg string) bool {
 
 // ---- findings & exemptions ----
 
+// usedExemptions: exemption keys that suppressed an obligation in this process (for `all` to list stale ones).
+var usedExemptions = map[string]bool{}
+
 type Finding struct {
 	Status   string `json:"status"` // known | fixed
 	Property string `json:"property"`
@@ -379,6 +382,7 @@ func checkProperty(p *Property, tier string, seed int) int {
 		}
 		if o.Status == "violated" {
 			if e, ok := exempt[o.Key]; ok {
+				usedExemptions[o.Key] = true
 				o.Status = "exempt"
 				o.Detail = "exempt: " + e.Reason + " | " + o.Detail
 			}
